@@ -58,7 +58,7 @@ def spec_oracle(C):
                 why = 'specification (deep merge) gives %s' % C.describe(s)
             elif s.startswith('err EConst'):
                 msg = unhx(im.split(' ')[1]) if im.startswith('err ') else ''
-                ok = im.startswith('err ') and 'constant' in msg.lower()
+                ok = im.startswith('err ') and has_kw(msg, 'constant')
                 why = 'specification: constant key rewritten -> error naming the key'
                 if ok:
                     k = C.parse_canon(s.split(' ')[2:])[0]
@@ -67,7 +67,7 @@ def spec_oracle(C):
                         why = 'constant-key error does not name key %r' % k[1]
             elif s.startswith('err EMerge'):
                 msg = unhx(im.split(' ')[1]) if im.startswith('err ') else ''
-                ok = im.startswith('err ') and ('merge' in msg.lower() or 'constant' in msg.lower())
+                ok = im.startswith('err ') and (has_kw(msg, 'merge') or has_kw(msg, 'constant'))
                 why = 'specification: type conflict -> error'
             elif s.startswith('panic'):
                 continue
